@@ -338,6 +338,11 @@ const POISON: f32 = 7.0;
 /// Streams `bytes` with the decoder thread paced exactly: every decoder step pushes one frame, every rendered
 /// frame consumes one (rate 1, dt = 1/rate), so the output is a function of the file and the commands only.
 fn stream_play(bytes: &Arc<[u8]>, rate: u32, start: usize, segs: &[Seg]) -> StreamObs {
+	stream_play_lp(bytes, rate, start, None, segs)
+}
+
+/// the same with an optional loop region (in frames)
+fn stream_play_lp(bytes: &Arc<[u8]>, rate: u32, start: usize, lp: Option<(usize, usize)>, segs: &[Seg]) -> StreamObs {
 	let mut obs = StreamObs::default();
 	let data = match StreamingSoundData::from_cursor(Cursor::new(bytes.clone())) {
 		Ok(d) => d,
@@ -347,6 +352,10 @@ fn stream_play(bytes: &Arc<[u8]>, rate: u32, start: usize, segs: &[Seg]) -> Stre
 		}
 	};
 	obs.num_frames = data.num_frames();
+	let data = match lp {
+		Some((a, b)) => data.loop_region(kira::sound::Region { start: PlaybackPosition::Samples(a), end: kira::sound::EndPosition::Custom(PlaybackPosition::Samples(b)) }),
+		None => data,
+	};
 	let dec = pacer::count();
 	let (mut sound, mut handle) = match data.start_position(PlaybackPosition::Samples(start)).into_sound() {
 		Ok(x) => x,
@@ -621,6 +630,103 @@ fn stream_case(tier: Tier, fmt: Fmt, ch: u16, rate: u32, ctx: &mut Ctx) {
 		let subject = StreamSubject { kind: "wav", desc: &desc, bytes: &bytes, rate, reference: &reference, packet: 1152 };
 		let lat = lattice(&[0, 1, n / 2, 1151, 1152, 1153, n.saturating_sub(1), n], n);
 		stream_matrix(&subject, &lat, 3, tier.pick(2, 3), ctx);
+	}
+}
+
+/// "after any sequence of seeks" on a stream that loops: the frames heard after the seek are the file's frames from the
+/// (wrapped) target on, wrapping from the loop end to the loop start
+fn loop_seek_case(fmt: Fmt, ch: u16, ctx: &mut Ctx) {
+	pacer::set_mode(pacer::Mode::Pacer);
+	let (n, rate) = (3000usize, 8000u32);
+	let (a, b) = (1500usize, 2200usize);
+	let spec = Spec { fmt, ch, n, rate, layout: Layout::Plain };
+	let (file, _, vals) = encode(&spec);
+	let bytes: Arc<[u8]> = file.into();
+	let reference = to_frames(&vals, ch as usize);
+	// a forward seek that lands at or beyond the loop end is wrapped back into the region (documented transport rule)
+	let wrap = |mut p: usize| {
+		while p >= b {
+			p -= b - a;
+		}
+		p
+	};
+	for &start in &[0usize, 1600] {
+		for &played in &[16usize, 900] {
+			for &target in &[0usize, 700, 1499, 1500, 1900, 2199, 2200, 2201, 2600, 2899, 2900] {
+				ctx.evals += 1;
+				ctx.count("runs: looping-stream seek scenarios", 1);
+				let k = 800usize;
+				let segs = [Seg { seek: None, steps: played, render: played }, Seg { seek: Some(target), steps: k, render: k }];
+				let detail = format!("{}: loop region {}..{}, start position {}, {} frames played, then seek_to(frame {} / rate), {} frames rendered (exactly paced)", spec.desc(), a, b, start, played, target, k);
+				let obs = match catch(|| stream_play_lp(&bytes, rate, start, Some((a, b)), &segs)) {
+					Ok(o) => o,
+					Err(p) => {
+						ctx.fail(format!("panic: {} :: seek on a looping stream", p), detail);
+						continue;
+					}
+				};
+				if obs.hung {
+					ctx.fail("hang: the streaming decoder thread never finishes a decode-loop iteration :: seek on a looping stream", detail);
+					continue;
+				}
+				if let Some(e) = obs.open_err.as_ref().or(obs.start_err.as_ref()) {
+					ctx.fail(format!("stream: valid file refused: {} :: looping stream", e), detail);
+					continue;
+				}
+				let class = if target >= b { "target at or beyond the loop end" } else if target >= a { "target inside the loop" } else { "target before the loop" };
+				if !obs.errors.is_empty() {
+					ctx.fail(format!("stream: decode error reported for a valid file: {} :: seek on a looping stream, {}", obs.errors[0], class), detail);
+					continue;
+				}
+				// expected: the first piece from `start` (wrapping), the second from the wrapped target
+				let mut want = vec![];
+				let mut p = start;
+				for _ in 0..played {
+					want.push(reference[p]);
+					p += 1;
+					if p >= b {
+						p = a;
+					}
+				}
+				// (a backward seek to a frame before the loop start is wrapped forward into the region - the same transport rule
+				// the static sound follows, see C04)
+				let forward = target > p;
+				let mut q = if forward {
+					wrap(target)
+				} else {
+					let mut t = target;
+					while t < a {
+						t += b - a;
+					}
+					t
+				};
+				let mut want2 = vec![];
+				for _ in 0..k {
+					want2.push(if q < n { reference[q] } else { Frame::ZERO });
+					q += 1;
+					if q == b {
+						q = a;
+					}
+				}
+				let got1 = &obs.out[0];
+				let got2 = &obs.out[1];
+				let bad1 = (0..played).find(|&i| !same_frame(got1[i], want[i]));
+				let bad2 = (0..k).find(|&i| !same_frame(got2[i], want2[i]));
+				if let Some(i) = bad1 {
+					ctx.fail("stream: frames differ from the loaded file :: looping stream before any seek", format!("frame {} of the first piece: got ({},{}) want ({},{}); {}", i, got1[i].left, got1[i].right, want[i].left, want[i].right, detail));
+				} else if let Some(i) = bad2 {
+					// diagnosis: which file frame was heard instead
+					let heard = (0..n).find(|j| same_frame(reference[*j], got2[i]));
+					ctx.fail(
+						format!("stream: frames after a seek differ from the loaded file :: looping stream, {}", class),
+						format!("frame {} after the seek: got ({},{}) = file frame {:?}, want ({},{}); {}", i, got2[i].left, got2[i].right, heard, want2[i].left, want2[i].right, detail),
+					);
+				} else {
+					ctx.nontrivial_extra += 1;
+				}
+				ctx.outcome(frames_hash(got2));
+			}
+		}
 	}
 }
 
@@ -912,6 +1018,8 @@ enum Case {
 	Corrupt(usize, usize),
 	/// a generated wav longer than two decoder rings, streamed from start to end in pieces
 	LongStream(Fmt, u16),
+	/// seeks on a looping stream (targets before, inside, at the end of and beyond the loop region)
+	LoopSeek(Fmt, u16),
 }
 
 fn cases(tier: Tier) -> Vec<Case> {
@@ -931,6 +1039,8 @@ fn cases(tier: Tier) -> Vec<Case> {
 	v.extend(ASSETS.iter().map(|a| Case::Asset(a)));
 	v.push(Case::LongStream(Fmt::S16, 2));
 	v.push(Case::LongStream(Fmt::F32, 1));
+	v.push(Case::LoopSeek(Fmt::S16, 2));
+	v.push(Case::LoopSeek(Fmt::U8, 1));
 	for (i, s) in bases(tier).into_iter().enumerate() {
 		let b = base(s);
 		v.extend((0..=b.bytes.len() / TRUNC_PART).map(|part| Case::Trunc(i, part)));
@@ -957,6 +1067,7 @@ impl Check for C18 {
 			Case::Asset(a) => format!("shipped asset {}: streaming == static on a position lattice (start x <=2 seeks)", a),
 			Case::Trunc(i, part) => format!("every truncation length in {}.. (at most {}) of base file {} [{}]", part * TRUNC_PART, TRUNC_PART, i, bases(tier)[*i].desc()),
 			Case::Corrupt(i, off) => format!("byte {} of base file {} [{}] set to each of the 255 other values", off, i, bases(tier)[*i].desc()),
+			Case::LoopSeek(f, ch) => format!("generated wav {:?} channels={} of 3000 frames at 8000 Hz streamed with loop region 1500..2200: start x one seek over a lattice of targets (before / inside / at the end of / beyond the region), early (decoder has not reached the loop) and late", f, ch),
 			Case::LongStream(f, ch) => format!("generated wav {:?} channels={} of 40000 frames at 8000 Hz streamed from start to end in pieces of 1000 frames (crosses the 16384-frame decoder ring twice) == loaded", f, ch),
 		}
 	}
@@ -968,6 +1079,7 @@ impl Check for C18 {
 			Case::Trunc(i, _) => format!("truncations of base file {} [{}]", i, bases(tier)[*i].desc()),
 			Case::Corrupt(i, off) => format!("corruption of byte {} of base file {} [{}]", off, i, bases(tier)[*i].desc()),
 			Case::LongStream(f, ch) => format!("long stream {:?} channels={}", f, ch),
+			Case::LoopSeek(f, ch) => format!("looping stream seeks {:?} channels={}", f, ch),
 		}
 	}
 	fn run_case(&self, tier: Tier, idx: u64, ctx: &mut Ctx) {
@@ -978,6 +1090,7 @@ impl Check for C18 {
 			Case::Trunc(i, part) => truncation_case(&base(bases(tier)[*i]), *part, ctx),
 			Case::Corrupt(i, off) => corruption_case(&base(bases(tier)[*i]), *off, ctx),
 			Case::LongStream(f, ch) => long_stream_case(*f, *ch, ctx),
+			Case::LoopSeek(f, ch) => loop_seek_case(*f, *ch, ctx),
 		});
 		if let Err(p) = r {
 			ctx.fail(format!("panic: {} :: outside the guarded kira calls (harness)", p), self.describe(tier, idx));
